@@ -22,7 +22,8 @@ IDENTITY = ["subvariant", "type", "format", "arch", "disc_number", "unified", "a
 VARIANTS = ["Server", "Client", "Workstation", "Server-optional", "Everything", "Cloud"]
 checksum_types = ["md5", "sha1", "sha256", "sha512"]
 
-_checksums = st.dictionaries(st.sampled_from(checksum_types), st.one_of(gen.hexdigest, st.sampled_from(["XXXXXX", "YYYYYY", "00"])),
+# the mapping is the caller's: type names are stored the way the producer spelled them
+_checksums = st.dictionaries(st.sampled_from(checksum_types + ["md5", "sha256", "SHA256", "Sha1", "sha-256"]), st.one_of(gen.hexdigest, st.sampled_from(["XXXXXX", "YYYYYY", "00"])),
                              min_size=1, max_size=3)
 
 
